@@ -10,20 +10,19 @@ The only facts proved about them are output lengths (`sha256_length`, `sha1_leng
 -/
 namespace Tahoe.Base.Sha256
 
-abbrev Bytes := List UInt8
 
 /-- big-endian 4 bytes of a word -/
-def be32 (x : UInt32) : Bytes :=
+def be32 (x : UInt32) : List UInt8 :=
   [(x >>> 24).toUInt8, (x >>> 16).toUInt8, (x >>> 8).toUInt8, x.toUInt8]
 
 /-- big-endian 8 bytes of a natural number (mod 2^64) -/
-def be64 (n : Nat) : Bytes :=
+def be64 (n : Nat) : List UInt8 :=
   [UInt8.ofNat (n >>> 56), UInt8.ofNat (n >>> 48), UInt8.ofNat (n >>> 40), UInt8.ofNat (n >>> 32),
    UInt8.ofNat (n >>> 24), UInt8.ofNat (n >>> 16), UInt8.ofNat (n >>> 8), UInt8.ofNat n]
 
 /-- Merkle–Damgård padding shared by SHA-1 and SHA-256: `m ‖ 0x80 ‖ 0* ‖ bitlen_be64`, total length
     a multiple of 64. -/
-def pad (m : Bytes) : Bytes :=
+def pad (m : List UInt8) : List UInt8 :=
   let l := m.length
   let z := (64 - (l + 9) % 64) % 64
   m ++ (0x80 : UInt8) :: (List.replicate z 0 ++ be64 (8 * l))
@@ -101,24 +100,24 @@ def compress (st : State) (blk : ByteArray) (off : Nat) : State := Id.run do
     a := t1 + t2
   return ⟨st.a + a, st.b + b, st.c + c, st.d + d, st.e + e, st.f + f, st.g + g, st.h + h⟩
 
-def digest (st : State) : Bytes :=
+def digest (st : State) : List UInt8 :=
   be32 st.a ++ be32 st.b ++ be32 st.c ++ be32 st.d ++ be32 st.e ++ be32 st.f ++ be32 st.g ++ be32 st.h
 
 /-- SHA-256 of a byte string (`hashlib.sha256(m).digest()`). -/
-def sha256 (m : Bytes) : Bytes :=
+def sha256 (m : List UInt8) : List UInt8 :=
   let p := (pad m).toByteArray
   digest ((List.range (p.size / 64)).foldl (fun st i => compress st p (64 * i)) init)
 
 /-- SHA-256d: `sha256(sha256(m))` (hashutil `_SHA256d_Hasher.digest` without truncation). -/
-def sha256d (m : Bytes) : Bytes := sha256 (sha256 m)
+def sha256d (m : List UInt8) : List UInt8 := sha256 (sha256 m)
 
 theorem digest_length (st : State) : (digest st).length = 32 := by
   simp [digest, be32]
 
-theorem sha256_length (m : Bytes) : (sha256 m).length = 32 := by
+theorem sha256_length (m : List UInt8) : (sha256 m).length = 32 := by
   simp only [sha256, digest_length]
 
-theorem sha256d_length (m : Bytes) : (sha256d m).length = 32 := sha256_length _
+theorem sha256d_length (m : List UInt8) : (sha256d m).length = 32 := sha256_length _
 
 /-! ## SHA-1 (used only by `permute_server_hash`) -/
 
@@ -160,21 +159,21 @@ def compress1 (st : State1) (blk : ByteArray) (off : Nat) : State1 := Id.run do
     a := t
   return ⟨st.a + a, st.b + b, st.c + c, st.d + d, st.e + e⟩
 
-def digest1 (st : State1) : Bytes :=
+def digest1 (st : State1) : List UInt8 :=
   be32 st.a ++ be32 st.b ++ be32 st.c ++ be32 st.d ++ be32 st.e
 
 /-- SHA-1 of a byte string (`hashlib.sha1(m).digest()`). -/
-def sha1 (m : Bytes) : Bytes :=
+def sha1 (m : List UInt8) : List UInt8 :=
   let p := (pad m).toByteArray
   digest1 ((List.range (p.size / 64)).foldl (fun st i => compress1 st p (64 * i)) init1)
 
-theorem sha1_length (m : Bytes) : (sha1 m).length = 20 := by
+theorem sha1_length (m : List UInt8) : (sha1 m).length = 20 := by
   simp [sha1, digest1, be32]
 
 /-! ## Standard HMAC-SHA256 (RFC 2104).  NB: `hashutil.hmac` is *not* this function (it does not
     pad the key to the block size); that one is modelled as written in `Tahoe/Crypto/Derive.lean`. -/
 
-def hmacSha256 (key msg : Bytes) : Bytes :=
+def hmacSha256 (key msg : List UInt8) : List UInt8 :=
   let k0 := if key.length > 64 then sha256 key else key
   let k := k0 ++ List.replicate (64 - k0.length) 0
   sha256 (k.map (· ^^^ 0x5c) ++ sha256 (k.map (· ^^^ 0x36) ++ msg))
@@ -182,11 +181,11 @@ def hmacSha256 (key msg : Bytes) : Bytes :=
 /-! ## Tests (NIST FIPS 180-4 / RFC 3174 / RFC 4231 example vectors; evaluated by `#guard`, they are
     tests, not proofs) -/
 
-def hexOf (b : Bytes) : String :=
+def hexOf (b : List UInt8) : String :=
   let hd (n : Nat) : Char := if n < 10 then Char.ofNat (48 + n) else Char.ofNat (87 + n)
   String.ofList (b.foldr (fun x acc => hd (x.toNat / 16) :: hd (x.toNat % 16) :: acc) [])
 
-def ofAscii (s : String) : Bytes := s.toList.map (fun c => UInt8.ofNat c.toNat)
+def ofAscii (s : String) : List UInt8 := s.toList.map (fun c => UInt8.ofNat c.toNat)
 
 -- test: SHA-256("")
 #guard hexOf (sha256 []) = "e3b0c44298fc1c149afbf4c8996fb92427ae41e4649b934ca495991b7852b855"
